@@ -1,5 +1,10 @@
 package main
 
+import (
+	"fmt"
+	"os"
+)
+
 func scUnit(name string, bound int) Unit {
 	sc := scenarioByName(name)
 	if sc == nil {
@@ -65,19 +70,23 @@ func init() {
 		})
 	clusterCheck("C04",
 		func() []Unit {
-			return scUnits(1, "write3", "crash3", "fig8", "stale-suffix", "stale-suffix-trail", "snap3", "majority-restart")
+			return append([]Unit{{Name: "enum-appendentries", Enum: enumC04}}, scUnits(1, "write3", "crash3", "fig8", "stale-suffix", "stale-suffix-trail", "snap3", "majority-restart")...)
 		},
 		func() []Unit {
-			return scUnits(2, "write3", "crash3", "fig8", "stale-suffix", "stale-suffix-trail", "snap3", "snap3-mono", "majority-restart", "member")
+			return append([]Unit{{Name: "enum-appendentries", Enum: enumC04}}, scUnits(2, "write3", "crash3", "fig8", "stale-suffix", "stale-suffix-trail", "snap3", "snap3-mono", "majority-restart", "member")...)
 		})
 	clusterCheck("C05",
-		func() []Unit { return scUnits(1, "write3", "crash3", "member", "member-race", "fig8", "transfer") },
+		func() []Unit { return append([]Unit{{Name: "enum-commitment", Enum: enumC05}}, scUnits(1, "write3", "crash3", "member", "member-race", "fig8", "transfer")...) },
 		func() []Unit {
-			return scUnits(2, "write3", "crash3", "member", "member-race", "fig8", "transfer", "snap3")
+			return append([]Unit{{Name: "enum-commitment", Enum: enumC05}}, scUnits(2, "write3", "crash3", "member", "member-race", "fig8", "transfer", "snap3")...)
 		})
 	clusterCheck("C07",
-		func() []Unit { return scUnits(1, "member", "member-race", "transfer") },
-		func() []Unit { return scUnits(2, "member", "member-race", "transfer", "crash3") })
+		func() []Unit {
+			return append([]Unit{{Name: "enum-nextconfiguration", Enum: enumC07}}, scUnits(1, "member", "member-race", "transfer")...)
+		},
+		func() []Unit {
+			return append([]Unit{{Name: "enum-nextconfiguration", Enum: enumC07}}, scUnits(2, "member", "member-race", "transfer", "crash3")...)
+		})
 	clusterCheck("C08",
 		func() []Unit { return scUnits(1, "write3", "crash3", "transfer", "majority-restart") },
 		func() []Unit { return scUnits(2, "write3", "crash3", "transfer", "majority-restart", "fig8") })
@@ -88,11 +97,27 @@ func init() {
 		})
 	clusterCheck("C11",
 		func() []Unit {
-			return scUnits(1, "snap3", "snap3-trail1", "snap3-mono", "stale-suffix", "stale-suffix-trail", "member")
+			return append([]Unit{{Name: "enum-compaction", Enum: enumC11}}, scUnits(1, "snap3", "snap3-trail1", "snap3-mono", "stale-suffix", "stale-suffix-trail", "member")...)
 		},
 		func() []Unit {
-			return scUnits(2, "snap3", "snap3-trail1", "snap3-mono", "stale-suffix", "stale-suffix-trail", "member", "crash3")
+			return append([]Unit{{Name: "enum-compaction", Enum: enumC11}}, scUnits(2, "snap3", "snap3-trail1", "snap3-mono", "stale-suffix", "stale-suffix-trail", "member", "crash3")...)
 		})
 }
 
-func replayEnum(rf *ReplayFile) int { return 2 }
+var enumReplays = map[string]func(c map[string]any) (string, bool){}
+
+func replayEnum(rf *ReplayFile) int {
+	f := enumReplays[rf.Scenario]
+	if f == nil {
+		fmt.Fprintln(os.Stderr, "no replayer for", rf.Scenario)
+		return 2
+	}
+	c, _ := rf.Case.(map[string]any)
+	msg, bad := f(c)
+	if bad {
+		fmt.Printf("VIOLATION property=%s replay=(case)\n  %s\n", rf.Property, msg)
+		return 1
+	}
+	fmt.Println("no violation on replay")
+	return 0
+}
